@@ -70,6 +70,8 @@ def _layouts(variables):
   outs = [('plain', plain), ('frozen', freeze(plain))]
   mixed = {k: freeze(v) for k, v in plain.items()}
   outs.append(('top-plain/collections-frozen', mixed))
+  # an additional collection that exists but holds nothing: it is returned whenever `mutable` selects it
+  outs.append(('plain/extra-empty-collection', dict(plain, cache={})))
   if 'state' in plain:
     # the written collection is supplied, but empty (only used under filters that make it mutable)
     outs.append(('plain/empty-state', dict(plain, state={})))
@@ -214,6 +216,23 @@ def run(tier, seed):
     if fails:
       break
   if not fails:
+    # dict-valued ARGUMENTS stored with put_variable and merged into later: the arguments stay as they were
+    cases += 1
+    d_arg = {'n': jnp.asarray(1.0), 'deep': {'k': jnp.asarray(5.0)}}
+    e_arg = {'n': jnp.asarray(2.0), 'm': jnp.asarray(3.0), 'deep': {'j': jnp.asarray(6.0)}}
+    snap_d, snap_e = _snap(d_arg), _snap(e_arg)
+
+    def put_twice(scope, d, e):
+      scope.put_variable('s', 'v', d)
+      scope.put_variable('s', 'v', e)
+      return 0
+    _, upd = core.apply(put_twice, mutable=['s'])({}, d_arg, e_arg)
+    if _snap(d_arg) != snap_d or _snap(e_arg) != snap_e:
+      fails.append(dict(inputs=dict(program="put_variable('s','v', d); put_variable('s','v', e) with d, e dict arguments of apply"),
+                        observed='an argument of apply was modified in place (the second write was merged into the dict object the caller passed)', violated='inputs-unchanged'))
+    elif _snap(core.unfreeze(upd['s']['v'])) != _snap({'n': e_arg['n'], 'm': e_arg['m'], 'deep': {'k': d_arg['deep']['k'], 'j': e_arg['deep']['j']}}):
+      fails.append(dict(inputs=dict(program="put_variable('s','v', d); put_variable('s','v', e) with d, e dict arguments of apply"), observed=f"returned {upd['s']['v']}", violated='writes-returned'))
+  if not fails:
     n, f = _write_sequences(tier)
     cases += n
     if f:
@@ -224,7 +243,7 @@ def run(tier, seed):
     cases += f[0]
     if f[1]:
       fails.append(f[1])
-  return dict(name=NAME, cases=cases, distinct=cases, bound='5 scope programs x 4 variable layouts x 14 mutable filters (+ linen module-object checks); all write sequences of length <= 3 over 7 writes through root / child / grand-child scopes',
+  return dict(name=NAME, cases=cases, distinct=cases, bound='5 scope programs x 5 variable layouts x 14 mutable filters (+ linen module-object checks); all write sequences of length <= 3 over 7 writes through root / child / grand-child scopes',
               failures=fails[:2], error=None)
 
 
@@ -276,6 +295,17 @@ def _linen_check():
       return n, dict(inputs=inputs, observed='sow changed the primary output', violated='observation-inert')
     if set(st.keys()) != {'intermediates'}:
       return n, dict(inputs=inputs, observed=f'returned collections {sorted(st.keys())}', violated='returned-set')
+    # the sown collection fed back in as an IMMUTABLE input: sow is a no-op, the primary output is unchanged, nothing raises
+    n += 1
+    fed = {**variables, **st}
+    for mut2 in (False, ['params'], nn.DenyList('intermediates')):
+      try:
+        out3 = net.apply(fed, x, mutable=mut2)
+      except Exception as e:  # noqa
+        return n, dict(inputs=dict(inputs, step='sown collection fed back, mutable=' + repr(mut2)), observed=f'raised {e!r}'[:300], violated='observation-inert')
+      y3 = out3 if mut2 is False else out3[0]
+      if np.asarray(y3).tobytes() != np.asarray(y1).tobytes():
+        return n, dict(inputs=dict(inputs, step='sown collection fed back, mutable=' + repr(mut2)), observed='the primary output changed', violated='observation-inert')
   # observation features of an OUTER call do not leak into an apply nested inside a module method
   class Block(nn.Module):
     @nn.compact
